@@ -40,6 +40,7 @@ fn real_main(args: &[String]) -> i32 {
         "r-worker" => return driver_r::worker_main(&args[1..]),
         "r-one" => return driver_r::one_main(&args[1..]),
         "r-shrink" => return driver_r::shrink_main(&args[1], &args[2]),
+        "r-canon" => return driver_r::canon_main(),
         "build-step" => return buildstep::main(&args[1], &args[2]),
         "replay-inner" => return driver_r::replay_inner_main(&args[1], args.iter().any(|a| a == "--quiet")),
         _ => {}
